@@ -28,7 +28,8 @@ ToProbe(s) == IF AtProbe(s) \/ s.status # "run" THEN s ELSE RunToProbe(s)
 (* matching an observed value (JSON projection) against a model value      *)
 RECURSIVE Match(_, _)
 Match(o, v) ==
-    IF "i" \in DOMAIN o THEN IsI(v) /\ v.i = o.i
+    IF "w" \in DOMAIN o THEN TRUE                             \* too big to carry: not compared
+    ELSE IF "i" \in DOMAIN o THEN IsI(v) /\ v.i = o.i
     ELSE IF "z" \in DOMAIN o THEN IsL(v)                       \* an unforced lazy list: shape only
     ELSE IF "l" \in DOMAIN o THEN IsL(v) /\ Len(v.l) = Len(o.l) /\ \A k \in 1..Len(o.l) : Match(o.l[k], v.l[k])
     ELSE IF "f" \in DOMAIN o THEN IsF(v)
